@@ -56,6 +56,46 @@ def under_null(obs, label):
     return False
 
 
+def label_keys(label):
+    try:
+        return tuple(k for k in json.loads(label.split('@')[0].split('#')[0]) if isinstance(k, str))
+    except ValueError:
+        return None
+
+
+_streamed = {}
+
+
+def streamed_key_paths(src):
+    """Response-key paths (list indices left out) of the fields that carry @stream somewhere in the document."""
+    if src not in _streamed:
+        if len(_streamed) > 64:
+            _streamed.clear()
+        from graphql.language import ast as A
+        doc = parse(src)
+        frags = {d.name.value: d for d in doc.definitions if isinstance(d, A.FragmentDefinitionNode)}
+        out = set()
+
+        def walk(ss, prefix, depth):
+            if ss is None or depth > 12:
+                return
+            for sel in ss.selections:
+                if isinstance(sel, A.FieldNode):
+                    key = prefix + ((sel.alias or sel.name).value,)
+                    if any(d.name.value == 'stream' for d in sel.directives or ()):
+                        out.add(key)
+                    walk(sel.selection_set, key, depth + 1)
+                elif isinstance(sel, A.InlineFragmentNode):
+                    walk(sel.selection_set, prefix, depth + 1)
+                elif sel.name.value in frags:
+                    walk(frags[sel.name.value].selection_set, prefix, depth + 1)
+        for d in doc.definitions:
+            if isinstance(d, A.OperationDefinitionNode):
+                walk(d.selection_set, (), 0)
+        _streamed[src] = out
+    return _streamed[src]
+
+
 def verdicts(ctx, run, sched, hz, obs, stop, early, src, case):
     """Judge one stopped (or failed) run.  The run has been driven; quiesce/drain happen here."""
     base = {"source": src[:600], "stop": repr(stop), "early": early, "trace": sched.trace[-10:]}
@@ -144,7 +184,12 @@ def verdicts(ctx, run, sched, hz, obs, stop, early, src, case):
         hc = obs.hook_calls[0]
         if hc['unfinished'] or hc['background']:
             mech = "hook-before-work-settled"
-            if not hc['background'] and hc['unfinished'] and all(under_null(obs, u) for u in hc['unfinished']):
+            if not hc['background'] and hc['unfinished'] and all(u.endswith('@aclose') for u in hc['unfinished']) and \
+                    not any(label_keys(u) in streamed_key_paths(src) for u in hc['unfinished']):
+                # cancelled work was reading a plain (not streamed) list from an async iterator: the iterator's close() is
+                # started (complete_async_iterator_value awaits it while unwinding) but the hook does not wait for it
+                mech += ":plain-list-source-still-closing-when-cancelled-work-is-declared-settled"
+            elif not hc['background'] and hc['unfinished'] and all(under_null(obs, u) for u in hc['unfinished']):
                 # same root cause as the known finding: a stream source opened by work that had been left to settle in
                 # the background after the response was delivered; with early execution its producer is still reading
                 mech += ":stream-work-spawned-by-abandoned-background-work"
@@ -165,7 +210,7 @@ def one(ctx, schema, doc, src, variables, value_fn, seed, p_async, policy, early
     run, sched, hz, obs = run_incremental(schema, doc, variables, value_fn, seed, p_async=p_async, policy=policy, early=early, stop=stop,
                                           with_signal=with_signal, p_iter=0.9 if base_case["seed"] % 11 == 6 else 0.35,
                                           source_burst=[1, 1, 1, 3, 8][seed % 5], tof=base_case.get("tof", False), p_double=[0.0, 0.0, 0.35, 0.7][((seed * 2654435761) >> 7) % 4],
-                                          p_task=[0.0, 0.25, 0.6][((seed * 40503) >> 5) % 3])
+                                          p_task=[0.0, 0.25, 0.6][((seed * 40503) >> 5) % 3], slow_close=((seed * 7919) >> 3) % 3 == 0)
     try:
         ctx.case()
         if stop is None:
